@@ -2364,3 +2364,55 @@ def rule_D12(ctx):
         else:
             r.neg_control(f["name"], bool(ss) and not bad)
     return r
+
+
+# ---------------------------------------------------------------------------------------------------------------------
+# T20  no peephole on the emitted stream.  The builder emits roots one after another; where control re-joins (after an else
+#      chain, after the out-of-line operand of && / ||) the instruction that happens to be last in the linear stream is not the
+#      instruction that ran last.  So a handler may not decide what to emit from the instruction it reads back: the only reader
+#      of the stream is the code that closes a root with its end-instruction list (T11 decides when that may skip).
+def t20_readers(F, fns=None):
+    from .rules_build import builder_fns, _end_loops
+    out = []
+    closers = set()
+    fns = list(builder_fns(F)) if fns is None else fns
+    for f in fns:
+        if f["kind"] != "Closure" and _end_loops(f):
+            closers.add(f["path"])
+    # private helpers called only from the closers count as part of them
+    callers = {}
+    for f in fns:
+        for d, _c in hirq.calls_in(f["hir"]):
+            callers.setdefault(d, set()).add(f["path"].split("::{closure")[0])
+    for f in fns:
+        owner = f["path"].split("::{closure")[0]
+        reads = [n for n in walk(f["hir"]) if n.get("k") == "MethodCall" and n.get("m") in ("get_instruction", "get_instruction_iter")]
+        if not reads:
+            continue
+        ok = owner in closers or (bool(callers.get(owner)) and callers[owner] <= closers)
+        out.append((f, reads, ok))
+    return out, closers
+
+
+def rule_T20(ctx):
+    F = ctx.F
+    r = RuleResult("T20", "no peephole on the emitted stream: only the code that closes a root with its end-instruction list reads instructions back; no handler decides what to emit from the instruction that is last in the linear stream")
+    readers, closers = t20_readers(F)
+    r.floor("functions that close a root (end-instruction loop)", len(closers), 1)
+    seen = set()
+    for f, reads, ok in readers:
+        r.examine((f["path"],), True, {"fn": f["path"], "stream_reads": len(reads), "is_root_closer": ok})
+        if not ok and f["path"] not in seen:
+            seen.add(f["path"])
+            r.finding(f["path"].split("::{closure")[0], "reads-back-emitted-stream", loc(reads[0]), "%s reads the emitted instruction stream back (%s at %s) outside the code that closes a root: what is emitted is decided from the instruction that is last in the LINEAR stream, which is not the instruction that ran last where control re-joins (after an else chain, after the right operand of && / ||) - `??(t ?> n |> !!f)` then leaves the arm's raw value unclassified" % (last(f["path"].split("::{closure")[0]), reads[0].get("m"), loc(reads[0])))
+    cf = [f for f in F.fns_in("gfixture::round3::t20::")] + [f for f in F.fns_in("gfixture::t11::") if f.get("name") == "ok_stream_last_guarded"]
+    creaders, _cc = t20_readers(F, cf)
+    verdict = {f["path"]: ok for f, _r, ok in creaders}
+    for f in cf:
+        if f["kind"] == "Closure" or not f.get("name", "").startswith(("ctl_", "ok_")) or f["path"] not in verdict:
+            continue
+        if f["name"].startswith("ctl_"):
+            r.control(f["name"], not verdict[f["path"]])
+        else:
+            r.neg_control(f["name"], verdict[f["path"]])
+    return r
